@@ -87,7 +87,7 @@ impl IntoCInt for ServiceRemoveError {
             }
             ServiceRemoveError::InternalError => iox2_service_remove_error_e::INTERNAL_ERROR,
             ServiceRemoveError::Interrupt => iox2_service_remove_error_e::INTERRUPT,
-            ServiceRemoveError::VersionMismatch => iox2_service_remove_error_e::INTERRUPT,
+            ServiceRemoveError::VersionMismatch => iox2_service_remove_error_e::VERSION_MISMATCH,
         }) as c_int
     }
 }
